@@ -89,6 +89,7 @@ type Sched struct {
 	// the role-sorted enabled set); afterwards index 0 is taken.  Choices
 	// records, for every decision, how many goroutines were enabled and which
 	// index was taken - the basis of the exhaustive depth-first exploration.
+	notClosed  string
 	Forced     []int
 	Systematic bool
 	Choices    [][2]int
@@ -318,6 +319,22 @@ func (s *Sched) enabled(g *gstate) bool {
 		if g.kind == col.VerifSend {
 			return len(ch) < cap(ch) || s.closed[ch]
 		}
+		if len(ch) == 0 && s.closed[ch] {
+			// The scheduler believes the channel was closed by a CloseQueue step.
+			// Everybody is parked and the channel is empty, so a non-blocking
+			// receive is a non-destructive test of that belief.
+			select {
+			case _, ok := <-ch:
+				if ok {
+					s.aborted = "harness: a token appeared on an empty channel while every goroutine was parked"
+				}
+			default:
+				if s.notClosed == "" {
+					s.notClosed = "CloseQueue has returned but the token channel of the queue is still open: a consumer blocked on the empty queue would never be woken"
+				}
+				return false
+			}
+		}
 		return len(ch) > 0 || s.closed[ch]
 	case kWaitGroup:
 		return g.group.n == 0
@@ -499,6 +516,9 @@ func (s *Sched) priority(g *gstate) int {
 func (s *Sched) Deadlock() string { return s.deadlock }
 func (s *Sched) Aborted() string  { return s.aborted }
 func (s *Sched) Stuck() bool      { return s.stuck }
+
+// NotClosed is non-empty when a CloseQueue step did not close the channel.
+func (s *Sched) NotClosed() string { return s.notClosed }
 
 // Unrepresentable: a committed goroutine became ready on a replaced channel.
 func (s *Sched) Unrepresentable() bool { return s.unrepresentable }
